@@ -1,1 +1,3 @@
 import Vflow.Props.C19
+import Vflow.Props.C12
+import Vflow.Props.C13
